@@ -179,6 +179,10 @@ fn eval_cli(map: &[Option<usize>], cs: &CallSet, rows: &[Vec<Cls>], container: C
     if let Some(v) = what.strip_prefix("verbosity") {
         args.push(v);
     }
+    // "long-stream-threads-<t>": an explicit thread count must not change what is counted
+    if let Some(t) = what.strip_prefix("long-stream-threads-") {
+        args.extend(["--threads", t]);
+    }
     let o = if what == "by-path" {
         // the input named on the command line, under the name a user would give that container
         // (an uncompressed BCF is conventionally called *.bcf as well)
@@ -474,6 +478,43 @@ pub fn run(tier: Tier) -> i32 {
             note: "64 samples in 2 populations (65x65 = 4225 entries), 70 in one (141), 40 in three (27x27x29 = 21 141 entries), 12 in six and 16 in eight populations (5^6 and 5^8 entries); 40 records with missing / multiallelic genotypes in every fifth; vcf and bcf; every printed value compared".into(),
             exhaustive: true,
             extra: vec![],
+        });
+    }
+    // long streams: "any number of records" - 130 000 records (many compressed blocks), among them a
+    // run of 120 000 consecutive records in which no sample is called
+    {
+        let n_long = tier.pick(130_000usize, 400_000usize);
+        let map: Vec<Option<usize>> = vec![Some(0), Some(1), Some(0)];
+        let gap = 5_000..n_long - 5_000;
+        let rows_long: Vec<Vec<Cls>> = (0..n_long).map(|i| if gap.contains(&i) { vec![Cls::Missing; 3] } else { rows3[(i * 7) % rows3.len()].clone() }).collect();
+        let mut cs = callset_from_rows(3, &rows_long, 0);
+        for i in gap.clone() {
+            // 2 000 records with every sample `./.`, 2 000 with `.|.`, the rest without a GT key in FORMAT
+            let g = match i - gap.start {
+                0..=1_999 => "./.",
+                2_000..=3_999 => ".|.",
+                _ => crate::gen::NO_GT_KEY,
+            };
+            cs.records[i].gts = vec![g.to_string(); 3];
+            cs.records[i].alts = vec!["C"];
+        }
+        let mut long: Vec<(Container, String)> = Vec::new();
+        for c in Container::all() {
+            long.push((c, "long-stream".into()));
+            long.push((c, "long-stream-threads-1".into()));
+            long.push((c, "long-stream-threads-3".into()));
+        }
+        let res = par_map(long.len(), |i| eval_cli(&map, &cs, &rows_long, long[i].0, &long[i].1, &scratch));
+        for v in res.into_iter().flatten() {
+            rep.violation(v.0, v.1, v.2);
+        }
+        rep.part(Part {
+            name: "cli: long streams".into(),
+            evaluations: long.len() as u64,
+            nontrivial: long.len() as u64,
+            note: format!("{n_long} records over every class row of 3 samples in 2 populations with a run of {} consecutive records without any called sample (./., .|., FORMAT without GT), in 4 containers (the compressed ones span many BGZF blocks) at the default thread count and with --threads 1 and 3; every printed value compared", n_long - 10_000),
+            exhaustive: true,
+            extra: vec![("records".into(), J::u(n_long))],
         });
     }
     {
